@@ -179,6 +179,13 @@ func (e *env) classify(s *ksSecrets, v []byte) string {
 			return "enc(" + k.name + "," + e.classifyPlain(s, pt) + ")"
 		}
 	}
+	// a box that opens under a key anybody knows (all zero: what a wiped key buffer holds) protects nothing
+	var zeroKey snacl.CryptoKey
+	e.h.Res.OracleEvals++
+	if pt, err := zeroKey.Decrypt(v); err == nil {
+		e.failAlways("C04", "sealed-under-zero-key", "a stored value is a box that opens under the all-zero key (%d bytes of plaintext: %s): anyone can read it without a passphrase", len(pt), e.classifyPlain(s, pt))
+		return "enc(zeroKey," + e.classifyPlain(s, pt) + ")"
+	}
 	if c := e.classifyPlain(s, v); c != "?" {
 		return c // something recognisable in the CLEAR
 	}
